@@ -41,4 +41,12 @@ theorem reset_total (s : ExponentialMovingAverage F) (h : WF s) :
   rs_exec
   all_goals (refine ⟨_, rfl, ⟨?_, ?_⟩, ?_⟩ <;> first | exact hp | exact hk | rfl)
 
+/-- `next` never panics, on ANY state (no `usize` arithmetic, no indexing): used where a composite's
+    statement carries no well-formedness hypothesis (C18 for ATR / KeltnerChannel) -/
+theorem next_some (s : ExponentialMovingAverage F) (x : F) : ∃ r, s.next x = some r := by
+  unfold next
+  try simp only [gen_helper]
+  rs_exec
+  all_goals exact ⟨_, rfl⟩
+
 end TaRs.Gen.ExponentialMovingAverage
